@@ -60,6 +60,11 @@ PROGRAMS = {
                           lambda i: [b'CHECK'], lambda i: []),
     'NOOP-holding-new': (lambda i: [b'SELECT INBOX', b'#DELIVER', b'NOOP'],
                          lambda i: [b'NOOP'], lambda i: []),
+    # there and straight back by the *other* session (the file keeps its key)
+    'MOVE-to-a': (lambda i: [b'SELECT INBOX'], lambda i: [b'MOVE 1 a'],
+                  lambda i: []),
+    'MOVE-back-from-a': (lambda i: [b'SELECT a'],
+                         lambda i: [b'NOOP', b'MOVE * INBOX'], lambda i: []),
     # a maildir folder made by another program: no dovecot-uidlist yet
     'APPEND-raw': (lambda i: [], lambda i: [b'APPEND raw ' +
                                             mt.lit(mt.body('r%d' % i))],
@@ -75,6 +80,7 @@ EXTRA_PAIRS = [('APPEND', 'CHECK'), ('COPY', 'CHECK'), ('MOVE', 'CHECK'),
                ('MOVE-self', 'SELECT'), ('MOVE-out-back', 'NOOP'),
                ('MOVE-out-back', 'SELECT'), ('MOVE-out-back', 'CHECK'),
                ('MOVE-out-flag-back', 'NOOP'), ('MOVE-out-flag-back', 'SELECT'),
+               ('MOVE-to-a', 'MOVE-back-from-a'),
                ('CHECK-holding-new', 'SELECT'), ('NOOP-holding-new', 'SELECT'),
                ('CHECK-holding-new', 'EXPUNGE'),
                ('APPEND-raw', 'APPEND-raw'), ('APPEND-raw', 'SELECT-raw'),
@@ -147,6 +153,24 @@ def judge(layout, names, deliver, ex, info):
                     v('uid-denotes-two-messages',
                       f'{nm} UID {u}: session {i} sees {t}, a new session '
                       f'{fin[u]}')
+    # a UID announced for INBOX exists there afterwards (pairs in which
+    # nobody can have removed it again)
+    if names == ('MOVE-to-a', 'MOVE-back-from-a') and final.get('INBOX'):
+        have = {u for u, _ in final['INBOX'][2]}
+        for i, res in enumerate(info['results']):
+            for line, r, rs in res:
+                if r.name != 'OK' or not line.upper().endswith(b' INBOX'):
+                    continue
+                code = r.code_arg[2] if r.code == b'COPYUID' else None
+                for x in rs:
+                    if x.kind == 'untagged' and x.code == b'COPYUID':
+                        code = x.code_arg[2]
+                for u in (expand(code) if code else ()):
+                    if u not in have:
+                        v('reported-uid-wrong',
+                          f'process {i} was told UID {u} in INBOX (COPYUID); '
+                          f'UID FETCH finds nothing; INBOX '
+                          f'{sorted(final["INBOX"][2])}')
     # reported UIDs are the ones UID FETCH finds
     inbox = dict(final['INBOX'][2]) if final.get('INBOX') else {}
     for i, res in enumerate(info['results']):
